@@ -73,6 +73,8 @@ def _grid():
                             for h in hcr_bits(['TWI', 'TWE']):
                                 for w in ('wfi', 'wfe'):
                                     cells.append(dict(base, kind='hyptrap', insn=w, **s, **h))
+                            for tj in (0, 1):
+                                cells.append(dict(base, kind='hyptrap', insn='bxj', TJDBX=tj, **s))      # BXJ trapped by HSTR.TJDBX
                     cells.append(dict(base, kind='reset'))
     # state constraints of the architecture
     out = []
@@ -120,6 +122,9 @@ def _fault_word(kind, thumb, rng, cell=None):
     if kind == 'smc':
         return T.smc(rng.getrandbits(4)) if thumb else A.smc(rng.getrandbits(4))
     if kind == 'hyptrap':
+        if (cell or {}).get('insn') == 'bxj':
+            rm = rng.randrange(0, 13)
+            return (0xF3C08F00 | rm << 16) if thumb else (0xE12FFF20 | rm)
         n = 3 if (cell or {}).get('insn', 'wfi') == 'wfi' else 2
         return th(T.hint(n)) if thumb else A.hint(n)
     if kind == 'dabt':
@@ -161,6 +166,8 @@ def gen_cell(cell, rng, rep):
             it = rng.randrange(1, 256)
         elif kind not in ('irq', 'fiq', 'reset') and rng.random() < 0.4:
             it = 0xE0 | rng.choice([0x8, 0x4, 0xC, 0x2, 0x6, 0xA, 0xE, 0x1, 0xF])     # AL block: the instruction executes, IT state is live
+    if cell.get('insn') == 'bxj' and it:
+        it = 0xE8                 # BXJ must be the last instruction of an IT block
     cpsr = G.random_cpsr(rng, cfg, mode=cell['mode'], thumb=thumb, it=it, e=None)
     if kind in ('irq', 'fiq'):
         cpsr &= ~(1 << (7 if kind == 'irq' else 6))      # unmasked so the line is delivered at the next boundary
@@ -176,6 +183,8 @@ def gen_cell(cell, rng, rep):
     sys = {'sctlr': sct, 'scr': scr if sec else 0, 'hcr': hcr if virt else 0,
            'hsctlr': rng.getrandbits(1) << 30 | rng.getrandbits(1) << 25 | (1 if kind == 'dabt' else rng.getrandbits(1)) << 1,
            'vbar': rng.getrandbits(27) << 5, 'mvbar': rng.getrandbits(27) << 5, 'hvbar': rng.getrandbits(27) << 5}
+    if virt:
+        sys['hstr'] = cell.get('TJDBX', rng.getrandbits(1)) << 17
     if pmsa:
         regs = [(0, 0, 0)] * 12
         regs[0] = (1 | 31 << 1, 0, 3 << 8)                       # 4 GiB, full access
@@ -184,6 +193,8 @@ def gen_cell(cell, rng, rep):
     if kind == 'dabt':
         R['R1usr'] = G.DATA + 0x400 + (rng.choice([1, 2, 3]) if want_align else 4 * rng.randrange(0, 8))
     state = {'cpsr': cpsr, 'pc': pc, 'sys': sys, 'R': R, 'spsr': G.random_spsrs(rng, cfg), 'elr_hyp': rng.getrandbits(32)}
+    if kind == 'hyptrap':
+        state['event_register'] = bool(rng.getrandbits(1))          # a WFE that finds the event register set is not trapped
     # program: 0-3 filler instructions (harmless moves), then the fault, then possibly nested faults
     pre = rng.choice([0, 0, 1, 2, 3])
     if it:
@@ -242,6 +253,9 @@ def expected_kind(kind, arm, cfg, cell=None):
         if (r.scr.value >> 7) & 1:
             return 'und' if not secure else None       # SCD in Secure state: UNPREDICTABLE
         return 'smc'
+    if kind == 'hyptrap' and (cell or {}).get('insn') == 'bxj':
+        # BXJ: trapped to Hyp mode from Non-secure PL1/PL0 when HSTR.TJDBX is set, whatever JMCR.JE says; otherwise it branches
+        return 'hyptrap' if (virt and not secure and m != 0x1a and (r.hstr.value >> 17) & 1) else 'none'
     if kind == 'hyptrap':
         bit = 13 if (cell or {}).get('insn', 'wfi') == 'wfi' else 14
         if virt and not secure and m != 0x1a and (hcr >> bit) & 1:
@@ -352,7 +366,7 @@ class Injector:
             # exception class of the syndrome written for an entry to Hyp mode (only HSR.EC is compared; ISS/IL are not)
             kind0 = self.inject.get(t)
             ec = (b.cores[0].arm.registers.hsr.value >> 26) & 0x3F
-            want_ec = {'hyptrap': 0x13 if kind0 == 'smc' else 0x01, 'svc': 0x11}[want]
+            want_ec = {'hyptrap': 0x13 if kind0 == 'smc' else (0x0A if (self.case.get('cell') or {}).get('insn') == 'bxj' else 0x01), 'svc': 0x11}[want]
             if kind0 in ('hyptrap', 'smc', 'svc') and ec != want_ec:
                 b.violate('entry_hsr', want, 'hsr_ec', 'entry to Hyp mode for %s: HSR.EC = %#x, expected %#x' % (kind0, ec, want_ec))
             b.cover.add('hsr|%s|%x' % (kind0, ec))
